@@ -500,6 +500,23 @@ func rangeAtD(v ssa.Value, b *ssa.BasicBlock, ptrBits, depth int) ival {
 		case *ssa.Call:
 			if bi, ok := x.Call.Value.(*ssa.Builtin); ok && (bi.Name() == "len" || bi.Name() == "cap") {
 				r.lo = 0
+				// no Go object exceeds the runtime's maxAlloc (2^48 bytes on 64-bit platforms)
+				if maxLen := int64(1) << 48; r.hi > maxLen {
+					r.hi = maxLen
+				}
+			}
+		case *ssa.Extract:
+			// result of a call: contract table for the varint readers, summaries for repository functions
+			if cl, ok := x.Tuple.(*ssa.Call); ok {
+				if f := cl.Call.StaticCallee(); f != nil {
+					if f.Pkg != nil && f.Pkg.Pkg.Path() == "encoding/binary" && (f.Name() == "Varint" || f.Name() == "Uvarint") && x.Index == 1 {
+						r.meet(ival{lo: -10, hi: 10}) // |n| <= MaxVarintLen64 (documented)
+					} else if len(f.Blocks) > 0 && depth < 3 {
+						if sr, ok := returnRange(f, x.Index, ptrBits, depth); ok {
+							r.meet(sr)
+						}
+					}
+				}
 			}
 		case *ssa.Phi:
 			j := ival{lo: posInf, hi: negInf, notZero: true}
@@ -516,7 +533,7 @@ func rangeAtD(v ssa.Value, b *ssa.BasicBlock, ptrBits, depth int) ival {
 				// direction; the bound on the moving side is what the guards
 				// dominating the back edge say about the incremented value.
 				if bo, ok := e.(*ssa.BinOp); ok && (bo.Op == token.ADD || bo.Op == token.SUB) && bo.X == v {
-					kr := rangeAtD(bo.Y, nil, ptrBits, depth+2)
+					kr := rangeAtD(bo.Y, pred, ptrBits, depth+2)
 					if bo.Op == token.SUB {
 						if kr.lo != negInf && kr.hi != posInf {
 							kr.lo, kr.hi = -kr.hi, -kr.lo
@@ -643,6 +660,100 @@ func linearOf(e, v ssa.Value, ptrBits int) (int64, bool) {
 	return k, true
 }
 
+// returnRange: join over the return statements of fn of the range of result
+// idx (what the function's own guards establish at each return).
+var returnRangeMemo = map[string]ival{}
+
+func returnRange(fn *ssa.Function, idx, ptrBits, depth int) (ival, bool) {
+	key := fmt.Sprintf("%p/%d/%d", fn, idx, ptrBits)
+	if r, ok := returnRangeMemo[key]; ok {
+		return r, r.lo != negInf || r.hi != posInf
+	}
+	returnRangeMemo[key] = fullRange() // recursion guard
+	j := ival{lo: posInf, hi: negInf}
+	n := 0
+	for _, b := range fn.Blocks {
+		ret, ok := b.Instrs[len(b.Instrs)-1].(*ssa.Return)
+		if !ok || idx >= len(ret.Results) {
+			continue
+		}
+		if _, _, isInt := isIntegerType(ret.Results[idx].Type()); !isInt {
+			return fullRange(), false
+		}
+		n++
+		rr := rangeAtD(ret.Results[idx], b, ptrBits, depth+2)
+		if rr.lo < j.lo {
+			j.lo = rr.lo
+		}
+		if rr.hi > j.hi {
+			j.hi = rr.hi
+		}
+	}
+	if n == 0 || j.lo > j.hi {
+		return fullRange(), false
+	}
+	res := ival{lo: j.lo, hi: j.hi}
+	returnRangeMemo[key] = res
+	return res, res.lo != negInf || res.hi != posInf
+}
+
+// ---- linear forms ----------------------------------------------------------------------
+
+type linForm struct {
+	atoms []ssa.Value
+	coefs []int64
+	k     int64
+}
+
+func (l *linForm) add(v ssa.Value, c int64) {
+	for i, a := range l.atoms {
+		if exprEq(a, v) {
+			l.coefs[i] += c
+			return
+		}
+	}
+	l.atoms = append(l.atoms, v)
+	l.coefs = append(l.coefs, c)
+}
+
+func linOf(v ssa.Value, sign int64, out *linForm, depth int) {
+	v = stripWiden(v)
+	if k, ok := constInt64(v); ok {
+		out.k += sign * k
+		return
+	}
+	if bo, ok := v.(*ssa.BinOp); ok && depth < 8 {
+		switch bo.Op {
+		case token.ADD:
+			linOf(bo.X, sign, out, depth+1)
+			linOf(bo.Y, sign, out, depth+1)
+			return
+		case token.SUB:
+			linOf(bo.X, sign, out, depth+1)
+			linOf(bo.Y, -sign, out, depth+1)
+			return
+		}
+	}
+	out.add(v, sign)
+}
+
+// linZero: a + b - c is identically zero as a linear form over atoms.
+func linSumEquals(a, b, c ssa.Value) bool {
+	var f linForm
+	linOf(a, 1, &f, 0)
+	linOf(b, 1, &f, 0)
+	linOf(c, -1, &f, 0)
+	if f.k != 0 {
+		return false
+	}
+	for _, co := range f.coefs {
+		if co != 0 {
+			return false
+		}
+	}
+	return true
+}
+
 // guardRange: the type range of v refined only by the comparisons dominating b.
 func guardRange(v ssa.Value, b *ssa.BasicBlock, ptrBits int) ival {
 	r := typeRange(v.Type(), ptrBits)
@@ -732,12 +843,17 @@ func applyCond(r *ival, v ssa.Value, cond ssa.Value, truth bool, ptrBits int) {
 		case token.LSS:
 			r.symHi = append(r.symHi, other)
 			r.symHiStrict = append(r.symHiStrict, other)
-			// v < other <= max(type of other)
-			if om := typeRange(other.Type(), ptrBits).hi; om-1 < r.hi {
+			// v < other <= max(other)
+			if om := rangeAtD(other, nil, ptrBits, 4).hi; om != posInf && om-1 < r.hi {
+				r.hi = om - 1
+			} else if om := typeRange(other.Type(), ptrBits).hi; om-1 < r.hi {
 				r.hi = om - 1
 			}
 		case token.LEQ, token.EQL:
 			r.symHi = append(r.symHi, other)
+			if om := rangeAtD(other, nil, ptrBits, 4).hi; om < r.hi {
+				r.hi = om
+			}
 			if op == token.EQL {
 				r.symLo = append(r.symLo, other)
 			}
